@@ -152,7 +152,7 @@ pub fn gen_any_graph(t: &mut Tape, tier: Tier) -> G {
             _ => true,
         })
         .collect();
-    let nx = t.below(5);
+    let nx = t.below(nv + 4);
     let externals: Vec<u8> = (0..nx).map(|_| if t.chance(0.15) { t.below(256) as u8 } else { labels[t.below(nv)] }).collect();
     let d = t.range(1, 6);
     let mut g = G { edges, massive, weights: vec![1.0; ne], externals, d };
@@ -224,8 +224,8 @@ pub fn gen_sparse_large_graph(t: &mut Tape, tier: Tier) -> G {
     let mut verts: Vec<u8> = edges.iter().flat_map(|&(a, b)| [a, b]).collect();
     verts.sort();
     verts.dedup();
-    let nx = t.below(5);
-    let externals: Vec<u8> = (0..nx).map(|_| verts[t.below(verts.len())]).collect();
+    let nx = if t.chance(0.15) { verts.len() } else { t.below(7) };
+    let externals: Vec<u8> = if nx == verts.len() { verts.clone() } else { (0..nx).map(|_| verts[t.below(verts.len())]).collect() };
     let d = t.range(1, 6);
     let mut g = G { edges, massive, weights: vec![1.0; ne], externals, d };
     let dyadic = !t.chance(0.4);
